@@ -110,7 +110,7 @@ def no_panic_oracle(case, trace):
         if t == "SKIPRUN" and not r.startswith("same"):
             yield "taking every second item with Iterator::nth(1) does not give items 1, 3, 5, ... of the plain run with the same driver calls: %s" % r[:300]
         if t == "ADAPT" and not r.startswith("same"):
-            yield "the run through Iterator's provided methods (by_ref().take(k) + size_hint, or fold) differs from the plain run with the same driver: %s" % r[:300]
+            yield "the run through Iterator's provided methods (by_ref().take(k) + size_hint, fold, count, last, peekable) differs from the plain run with the same driver: %s" % r[:300]
         if t == "SADAPT" and not r.startswith("same"):
             yield "the static run through Iterator::nth / skip / step_by differs from the plain static run (items visited, or the draws of the whole run): %s" % r[:300]
         if t == "REUSE" and not r.startswith("same"):
